@@ -370,7 +370,7 @@ func (t *topoRun) mutate(s *mserver, st *simkit.Step, rng *simkit.Rand) {
 	vid := uint32(st.Int("vid"))
 	switch st.Str("what") {
 	case "add":
-		s.actual.vols[vid] = mvol{Id: vid, Collection: st.Str("col"), Rp: st.Str("rp"), Ttl: st.Str("ttl"), Disk: st.Str("disk"), Size: uint64(st.Int("size"))}
+		s.actual.vols[vid] = mvol{Id: vid, Collection: st.Str("col"), Rp: st.Str("rp"), Ttl: st.Str("ttl"), Disk: st.Str("disk"), Size: uint64(st.Int("size")), RO: st.Int("ro") == 1}
 	case "del":
 		delete(s.actual.vols, vid)
 	case "ro":
@@ -866,7 +866,15 @@ func genTopo(prop string) func(tier string, seed uint64, idx int) *simkit.Plan {
 		}
 		addVol := func(n, vid int) simkit.Step {
 			d := defs[vid]
-			return simkit.St("mutate", rng.Uint64(), "node", n, "what", "add", "vid", vid, "rp", d.rp, "ttl", d.ttl, "disk", d.disk, "col", d.col, "size", rng.Intn(300000))
+			// some replicas appear already full and/or read-only (a restarted server reporting old volumes)
+			sz, ro := rng.Intn(300000), 0
+			if rng.Chance(1, 4) {
+				sz = 1<<20 + rng.Intn(40000) - 3
+			}
+			if rng.Chance(1, 4) {
+				ro = 1
+			}
+			return simkit.St("mutate", rng.Uint64(), "node", n, "what", "add", "vid", vid, "rp", d.rp, "ttl", d.ttl, "disk", d.disk, "col", d.col, "size", sz, "ro", ro)
 		}
 		steps := rng.Range(10, 45)
 		for i := 0; i < steps; i++ {
